@@ -395,13 +395,17 @@ IntAccepts(chars) ==
     /\ \A j \in 1..Len(b) : b[j] \in DecCh \cup {"_"}
     /\ \A j \in 1..(Len(b) - 1) : ~(b[j] = "_" /\ b[j + 1] = "_")
 IntNegative(chars) == LET s == LStrip(chars) IN s # << >> /\ s[1] = "-"
-\* the tail of _parse_replacement_field :669-676: "" -> None; str.isdigit() -> int(name); else the name
+\* the tail of _parse_replacement_field :669-676: "" -> None; str.isdecimal() -> int(name); else the name
+\* (repo 0e517b7; before it the test was str.isdigit(), kept as seeded model bug "isdigit-name")
 NameOf(chars) == IF chars = << >> THEN <<"auto">>
                  ELSE IF FBug = "int-semantics" THEN (IF IntAccepts(chars) THEN <<"int", chars>> ELSE <<"str", chars>>)
-                 ELSE IF \A j \in 1..Len(chars) : chars[j] \in IsDigitCh THEN <<"int", chars>>   \* isdigit :672
+                 ELSE IF FBug = "isdigit-name"
+                      THEN (IF \A j \in 1..Len(chars) : chars[j] \in IsDigitCh THEN <<"int", chars>> ELSE <<"str", chars>>)
+                 ELSE IF \A j \in 1..Len(chars) : chars[j] \in DecCh THEN <<"int", chars>>     \* isdecimal :672
                  ELSE <<"str", chars>>
-\* int(name) raises ValueError for an isdigit() string with a non-decimal digit ("\u00b2") :673
-NameCrashes(chars) == /\ FBug # "int-semantics" /\ chars # << >>
+\* int(name) :673 cannot raise for an isdecimal() string; under the seeded bug "isdigit-name" it raises
+\* ValueError for an isdigit() string with a non-decimal digit ("\u00b2")
+NameCrashes(chars) == /\ FBug = "isdigit-name" /\ chars # << >>
                       /\ \A j \in 1..Len(chars) : chars[j] \in IsDigitCh
                       /\ \E j \in 1..Len(chars) : chars[j] \notin DecCh
 \* the index an "int" field denotes (Python ints are unbounded: capped at BigIdx, see CapVal)
@@ -492,18 +496,6 @@ Dev_EscapeInSpec(c, k)   == k = "none" /\ Cause(c) = "unmatched-in-spec"
 TextAfterBracket(t) == \E j \in 1..Len(t) : t[j] = "]" /\ At(t, j + 1) \notin {".", "[", "}", "!", ":", "EOF"}
 Dev_TextAfterBracket(c, k) == k = "none" /\ RefRaises(c) /\ TextAfterBracket(c.t)
 
-\* "{\u00b2}".format(1): a field name for which str.isdigit() holds but which is no decimal number makes
-\* int(name) raise inside _parse_replacement_field: internal error, nothing reported, Any[error] inferred.
-\* Stated on the text: some replacement field's name (up to the first "." "[" "!" ":" "}") consists of
-\* isdigit characters, at least one of which is not a decimal digit.
-IsdigitNotDecimal(name) == /\ name # << >> /\ \A j \in 1..Len(name) : name[j] \in IsDigitCh
-                           /\ \E j \in 1..Len(name) : name[j] \notin DecCh
-Dev_IsdigitNameCrash(c) ==
-    \E j \in 1..Len(c.t) :
-        /\ c.t[j] = "{"
-        /\ LET e == FirstIn(c.t, j + 1, {".", "[", "!", ":", "}", "{"}) IN
-           e # 0 /\ IsdigitNotDecimal(SubSeq(c.t, j + 1, e - 1))
-
 DevMissed(c, k) ==
     CASE Dev_AutoManualMix(c, k) -> "format-auto-manual-mix"
       [] Dev_PathUnchecked(c, k) -> "format-field-path-unchecked"
@@ -568,14 +560,11 @@ MFirst(c) ==
 
 Modelled == stage = "done" => RefOutcome(case) # "unmodelled"
 Soundness == stage = "done" =>
-    (ReportsWhenRaises(case, MFirst(case)) \/ DevMissed(case, MFirst(case)) # "no"
-     \/ (ImplCrashes(case) /\ Dev_IsdigitNameCrash(case)))
+    (ReportsWhenRaises(case, MFirst(case)) \/ DevMissed(case, MFirst(case)) # "no")
 Precision == stage = "done" =>
     (SilentWhenOk(case, MFirst(case)) \/ DevFalse(case, MFirst(case)) # "no")
-ResultType == stage = "done" =>
-    (TypeIsResultType(case, ImplType(case)) \/ (ImplCrashes(case) /\ Dev_IsdigitNameCrash(case)))
-NoCrash == stage = "done" => (~ImplCrashes(case) \/ Dev_IsdigitNameCrash(case))
-NoCrashStrict == stage = "done" => ~ImplCrashes(case)
+ResultType == stage = "done" => TypeIsResultType(case, ImplType(case))
+NoCrash == stage = "done" => ~ImplCrashes(case)
 SoundnessStrict == stage = "done" => ReportsWhenRaises(case, MFirst(case))
 
 (***************************************************************************)
